@@ -327,10 +327,22 @@ class Rewriter:
         po = s.index('(')
         pc = match_close(s, po)
         plist = s[po + 1:pc]
-        plist2, n = re.subn(r'\s*=\s*[^,()]+(?=,|$)', '', plist)
+        parts = split_args(plist)
+        n = 0
+        for k, prm in enumerate(parts):
+            depth = 0
+            for q, ch in enumerate(prm):
+                if ch in '([{<':
+                    depth += 1
+                elif ch in ')]}>':
+                    depth -= 1
+                elif ch == '=' and depth == 0 and prm[q:q + 2] != '==':
+                    parts[k] = prm[:q].rstrip()
+                    n += 1
+                    break
         if n:
             self._hit('R16', n)
-            s = s[:po + 1] + plist2 + s[pc:]
+            s = s[:po + 1] + ','.join(parts) + s[pc:]
         return s
 
 
